@@ -236,9 +236,31 @@ static int print_f(void (*printchar_handler)(void *d, int c),
     int pc, i, ch, len, prefix_len, postfix_len, pad_count, sign_count,
         zero_left, letter_base;
 
-    if (isnan(r))
+    /* the digits are produced in DOUBLE arithmetic: classify the value that
+       is actually converted (a long double may be out of its range) */
+    r = (DOUBLE)r;
+    if (isnan(r) || isinf(r))
     {
-        r = 0.0;
+        /* [sign]inf or [sign]nan, in capitals for F E G; padded with spaces
+           only */
+        char text[5], *t = text;
+
+        if (signbit(r))
+            *t++ = '-';
+        else if (ops & OPS_FLAG_WITH_SIGN)
+            *t++ = '+';
+        else if (ops & OPS_FLAG_EXTRA_SPACE)
+            *t++ = ' ';
+        strcpy(t,
+               isnan(r) ? ops & OPS_SPEC_UPPER_CASE ? "NAN" : "nan"
+               : ops & OPS_SPEC_UPPER_CASE ? "INF"
+                                           : "inf");
+        return print_s(printchar_handler,
+                       printchar_data,
+                       text,
+                       width,
+                       0,
+                       ops & OPS_FLAG_LEFT_ALIGN);
     }
 
     postfix = end = str = &buff[0] + sizeof buff / sizeof buff[0] - 1;
